@@ -93,7 +93,7 @@ struct Run {
 	// statistics for the non-trivial rules
 	int n_redeliver = 0, n_red_cache = 0, n_red_qmem = 0, n_red_pending = 0, n_red_lastfrag = 0, n_red_case = 0, n_red_otheraddr = 0;
 	int n_multi3 = 0, n_nreq_ok = 0, n_badfrag = 0, n_dup_twice = 0, n_realsoon = 0, n_tun_via_held = 0, n_long = 0;
-	int n_cache_same = 0, n_trunc = 0, n_lost_answers = 0, n_giveup = 0, n_raw = 0, n_recycled = 0, n_recycled_data_before_n = 0, n_c2c = 0, n_red_altdomain = 0, n_qr = 0, n_hsreq = 0, n_wrap = 0, n_merge = 0;
+	int n_cache_same = 0, n_trunc = 0, n_lost_answers = 0, n_giveup = 0, n_raw = 0, n_recycled = 0, n_recycled_data_before_n = 0, n_c2c = 0, n_red_altdomain = 0, n_qr = 0, n_hsreq = 0, n_wrap = 0, n_merge = 0, n_glue = 0;
 	uint64_t n_data_emits = 0;
 	std::map<int, std::pair<int, Bytes>> c2c_on_delivery;   // last-fragment query record -> (receiving peer, packet): registered in the receiver's stream when the server reads that query
 	uint64_t t_last_sent = 0;    // when the harness last handed a query to the network
@@ -440,7 +440,7 @@ struct Engine {
 			p.up_z = refproto::zcompress(p.up_cur_pkt); p.up_off = 0; p.up_frag = 0; p.up_active = true;
 			p.up_force_first = 0;
 			bool wrap = false;
-			if (P.wrap_games && p.merge_stage != 2 && p.up_cur_to < 0 && !p.up_completed.empty() && t.chance(1, 4)) {
+			if (P.wrap_games && p.merge_stage < 2 && p.up_cur_to < 0 && !p.up_completed.empty() && t.chance(1, 4)) {
 				// Seven packets of this client were lost entirely (the server saw nothing of them), so this one carries the sequence
 				// number of the last packet the server completed.  Its content is crafted: incompressible (zlib stores it verbatim)
 				// with a complete zlib stream of ANOTHER packet exactly where its second fragment begins.
@@ -465,6 +465,36 @@ struct Engine {
 			// entirely, and the packet that then re-uses the sequence number differs from the abandoned one in its first fragment only in a
 			// way Adler-32 cannot see (three consecutive bytes +1 -2 +1) and has a different tail.  A receiver that appends the new second
 			// fragment to the old first fragment gets past zlib's checksum with a packet nobody sent.
+			if (!wrap && P.wrap_games && p.merge_stage == 3) {
+				// Glue game: the packet after an abandoned one (next sequence number, same length) carries, where the abandoned packet's
+				// checksum would sit if the new packet had been stored BEHIND the abandoned first fragment, the Adler-32 of exactly that
+				// concatenation.  A receiver that keeps stale bytes in its buffer when a new packet starts gets past zlib with it.
+				const Bytes &A = p.up_abandoned.back();
+				size_t F = up_chunk_cap(p);
+				Bytes za = refproto::zcompress(A);
+				Bytes B(A.begin(), A.begin() + 24);
+				uint32_t x = (uint32_t)((R.n_glue + 3) * 2654435761u + 11) | 1;
+				while (B.size() < A.size()) { x ^= x << 13; x ^= x >> 17; x ^= x << 5; B.push_back((uint8_t)(x >> 11)); }
+				// glued = za[0..F) + zb[0..L-F), L = za.size(); its last four bytes are zb[L-F-4 .. L-F) = B[L-F-11 .. L-F-7)
+				size_t L = za.size();
+				if (L >= F + 35 && L - F - 7 <= B.size()) {
+					Bytes zb = refproto::zcompress(B);
+					if (zb.size() == L && !memcmp(zb.data() + 7, B.data(), B.size())) {
+						Bytes raw(za.begin() + 7, za.begin() + F);            // the abandoned packet's bytes in the first fragment
+						raw.insert(raw.end(), zb.begin(), zb.begin() + (L - F - 4));
+						uint32_t a = 1, b = 0; for (uint8_t v : raw) { a = (a + v) % 65521; b = (b + a) % 65521; }
+						uint32_t ad = (b << 16) | a;
+						size_t at = L - F - 4 - 7;
+						B[at] = (uint8_t)(ad >> 24); B[at + 1] = (uint8_t)(ad >> 16); B[at + 2] = (uint8_t)(ad >> 8); B[at + 3] = (uint8_t)ad;
+						zb = refproto::zcompress(B);
+						if (zb.size() == L && !memcmp(zb.data() + 7, B.data(), B.size())) {
+							p.up_cur_pkt = B; p.up_z = zb; p.up_force_first = 0; p.up_cur_to = -1; R.n_glue++;
+							note(fmt("peer%d: next packet (%zu bytes) carries the Adler-32 of 'abandoned first fragment + its own beginning' at offset %zu", peer_index(p), B.size(), at));
+						}
+					}
+				}
+				p.merge_stage = 4;
+			}
 			if (!wrap && P.wrap_games && p.merge_stage == 2) {
 				p.up_cur_pkt = p.merge_next; p.up_z = refproto::zcompress(p.up_cur_pkt); p.up_force_first = up_chunk_cap(p); p.up_cur_to = -1; p.merge_stage = 0; wrap = true; R.n_merge++;
 				sim::W.run_for(28000000);
@@ -477,13 +507,14 @@ struct Engine {
 				if (A.size() + 7 == F && F >= 60) {
 					Bytes B = A; size_t k = 30; bool ok = false;
 					for (; k + 3 < B.size(); k++) if (B[k] < 255 && B[k + 1] >= 2 && B[k + 2] < 255) { B[k]++; B[k + 1] -= 2; B[k + 2]++; ok = true; break; }
-					for (int j = 0; j < 24; j++) { x ^= x << 13; x ^= x >> 17; x ^= x << 5; A.push_back((uint8_t)(x >> 11)); B.push_back((uint8_t)(x >> 19)); }
+					for (int j = 0; j < 40; j++) { x ^= x << 13; x ^= x >> 17; x ^= x << 5; A.push_back((uint8_t)(x >> 11)); B.push_back((uint8_t)(x >> 19)); }
 					Bytes za = refproto::zcompress(A), zb = refproto::zcompress(B);
 					if (ok && za.size() == A.size() + 11 && zb.size() == B.size() + 11 && !memcmp(za.data() + 7, A.data(), A.size()) && !memcmp(zb.data() + 7, B.data(), B.size())) {
 						p.up_cur_pkt = A; p.up_z = za; p.up_force_first = F; p.merge_next = B; p.merge_stage = 1;
 					}
 				}
 			}
+			if (p.merge_stage == 4) p.merge_stage = 0;
 			if (!wrap) p.sc.up_seq = (p.sc.up_seq + 1) & 7;
 		}
 		size_t cap = up_chunk_cap(p);
@@ -513,7 +544,7 @@ struct Engine {
 				uint16_t id2 = p.sc.send_name(again);
 				record(p, id2, false, -1, p.sc.addr, again, refproto::qtype_of(p.sc.qtype_k));
 			}
-			p.up_active = false; p.up_abandoned.push_back(p.up_cur_pkt); p.merge_stage = 2;
+			p.up_active = false; p.up_abandoned.push_back(p.up_cur_pkt); p.merge_stage = t.chance(1, 3) ? 3 : 2;
 			note(fmt("peer%d: no acknowledgement for the first fragment (%d repeats); packet given up", peer_index(p), rep));
 		}
 	}
